@@ -262,6 +262,47 @@ class SimRandom(_random.Random):
         return self._pick_index(n)
 
 
+class SteerRandom(SimRandom):
+    """A chooser for guided search: index decisions (choice / randrange / randint) follow a
+    prescribed list and default to 0 beyond it; every decision is recorded with the number of
+    result nodes the consumer had received when it was taken (``self.produced`` is kept up to date
+    by the consumer).  Decisions of another kind (shuffles, floats, bits) are answered uniformly
+    and flagged: the search cannot enumerate those."""
+
+    def __init__(self, seed: int, plan: List[int]) -> None:
+        super().__init__(seed)
+        self.plan = plan
+        self.decisions: List[List[int]] = []  # [n, idx, produced]
+        self.produced = 0
+        self.unsupported = 0
+        self.invalid_plan = False
+
+    def _pick_index(self, n: int) -> int:
+        k = len(self.decisions)
+        idx = self.plan[k] if k < len(self.plan) else 0
+        if idx >= n:
+            self.invalid_plan = True
+            idx = n - 1
+        self.decisions.append([n, idx, self.produced])
+        self.log.append(["choice", n, idx])
+        if self.cap is not None and len(self.log) > self.cap:
+            raise ChoiceBudgetExceeded(len(self.log))
+        return idx
+
+    def _perm(self, kind: str, n: int, modekind: str) -> List[int]:
+        if n > 1:
+            self.unsupported += 1
+        return super()._perm(kind, n, modekind)
+
+    def random(self) -> float:  # type: ignore[override]
+        self.unsupported += 1
+        return self._u.random()
+
+    def getrandbits(self, k: int) -> int:  # type: ignore[override]
+        self.unsupported += 1
+        return self._u.getrandbits(k)
+
+
 _PATCHED: Dict[str, Any] = {}
 
 
